@@ -6,7 +6,16 @@ import numpy as np
 
 from fixtures import h5, v4
 
-RULE = ('stream args: selection arguments (all/empty/comma strings with blanks/lists/unknown names; every subset of '
+RULE = ('stream args, systematic part (every run, every format): an unknown name at every position (first / middle / last / both ends) of '
+        'requests of 1-3 known names as list, tuple and string; every placement (leading / trailing on the whole string, before / '
+        'after the comma, everywhere) of each ASCII white-space character in string requests, and the same padded names as list '
+        'elements.  stream tables: v3 / v2 files with their OWN flags_description table (KAT-7 table, the documented names in another '
+        'order, 8 random distinct names, a 7-row table that must be refused) opened through katdal.open, 25-33 select() calls each '
+        '(names of the table as string / list / tuple, names the table does not have, unknown names in front of known ones, white '
+        'space at both ends, empty, all, calls without flags=); after EVERY call _flags_select, d.flags, the warnings and the names '
+        'the getter reports are compared with wire 164; a case is one (file, history prefix), non-trivial when a name of the table '
+        'is requested, distinct by (format, table, step, argument).  '
+        'stream args: selection arguments (all/empty/comma strings with blanks/lists/unknown names; every subset of '
         'the 8 documented names in the thorough tier) applied with select(flags=...) to synthetic v4, v3 and v2 data '
         'sets whose stored flag bytes run through all 256 values; a case is one (format, argument) pair, non-trivial '
         'when the argument names at least one flag, distinct by (format, canonical argument).  stream v4cal: random '
@@ -704,7 +713,7 @@ def run_tables(ctx, cfg):
                     ctx.disagree(sig.replace(base, base + ';obs=warnings;%s' % ('missing' if nwarn < mo[2] else 'spurious')), case,
                                  nwarn, mo[2], 'number of "not a legitimate flag type" warnings differs from the number of '
                                  'requested names the table of the file does not have')
-            getter = [str(n) for n in d._flags_keep]
+            getter = [n.decode() if isinstance(n, bytes) else str(n) for n in d._flags_keep]    # np.bytes_ is a bytes
             if ok and getter != mo[3]:
                 ok = False
                 ctx.disagree(sig.replace(base, base + ';obs=getter') + ';vs=model', case, getter, mo[3],
